@@ -1625,6 +1625,11 @@ class UserSpaceImpl(*_user_space_impl_base):
         DynamicBase.__init__(self)
         EditableParentImpl.__init__(self)
 
+        if refs is not None:
+            # Initial references are tracked like those created later
+            for key in refs:
+                self.model.refmgr.register_ref(self._own_refs[key])
+
         self.cellsnamer = AutoNamer("Cells")
 
         if isinstance(source, ModuleType):
